@@ -21,6 +21,7 @@ import PowHsm.Admin.SignerAuth
 import PowHsm.Admin.IntelHex
 import PowHsm.Admin.Commands
 import PowHsm.Spec.C18
+import PowHsm.Conc.Server
 namespace PowHsm
 namespace Ops
 open Ledger Comm Dongle Spec
@@ -395,6 +396,20 @@ def admin (input implOut : Json) : Option (Json × Bool) := do
     w.stdinLines w.script { events := ievs, ok := iok }
   pure (model, ok)
 
+/-- C12: the device log of a run of the real server under concurrent clients.  `clients` are
+    (id, number of device exchanges of its request) in the order their first APDU was seen. -/
+def conc (input implOut : Json) : Option (Json × Bool) := do
+  let clients ← (← (← input.get? "clients").asArr?).mapM fun c => match c with
+    | .arr [a, b] => do pure ((← a.asNat?), (← b.asNat?))
+    | _ => none
+  let kind := Conc.kindOfString Generated.serverKind
+  let model : Json := if kind == .sequential then
+      .obj [("log", .arr ((Conc.sequentialLog clients).map fun n => .int (Int.ofNat n))), ("replies_ok", .bool true)]
+    else .str "not-sequential"
+  let ilog ← (← (← implOut.get? "log").asArr?).mapM Json.asNat?
+  let rok ← (← implOut.get? "replies_ok").asBool?
+  pure (model, Conc.blocks ilog && rok)
+
 def run (op : String) (input implOut : Json) : Option (Json × Bool) :=
   match op with
   | "unsign" => unsign input implOut
@@ -427,6 +442,7 @@ def run (op : String) (input implOut : Json) : Option (Json × Bool) :=
   | "sigauth" => sigauth input implOut
   | "hexhash" => hexhash input implOut
   | "admin" => admin input implOut
+  | "conc" => conc input implOut
   | "line.C14" => line (fun i o =>
       -- a transaction that cannot be decoded, or has an input with an empty script, is answered
       -- -102 without contacting the device: no event of any kind (no APDU, no disconnect, no connect)
